@@ -254,6 +254,51 @@ def compare_invariants(a, b, etol, stol):
     return None, we, ws
 
 
+def eigen_strength_table(hh, dd, bands, cluster_gap):
+    """Dipole strengths |<a|mu|b>|^2 between ALL pairs of exciton levels of (H, mu), levels in
+    ascending order of energy over the whole state space (what one reads from an operator
+    represented in the eigenbasis of H, whose states are sorted by energy).
+
+    Returns (levels, table): levels = [(energy, multiplicity, band), ...] ascending;
+    table[i, j] = sum of |<a|mu|b>|^2 over the states a of level i and b of level j
+    (sums over whole degenerate subspaces are independent of the eigenvectors chosen inside).
+    H is block diagonal, so the eigenvectors are taken band by band; the table is undefined
+    (ValueError) when levels of DIFFERENT bands come closer than cluster_gap, because an
+    eigensolver working on the whole matrix may then mix the bands."""
+    inv = invariants(hh, dd, bands, cluster_gap)
+    entries = []
+    for b, lv in enumerate(inv["levels"]):
+        for i, (e, m) in enumerate(lv):
+            entries.append((float(e), int(m), b, i))
+    entries.sort(key=lambda t: (t[0], t[2], t[3]))
+    for p, q in zip(entries[:-1], entries[1:]):
+        if p[2] != q[2] and q[0] - p[0] <= cluster_gap:
+            raise ValueError("levels of bands %d and %d closer than the cluster gap" % (p[2], q[2]))
+    nl = len(entries)
+    table = numpy.zeros((nl, nl), dtype=float)
+    for x, (_, _, bx, ix) in enumerate(entries):
+        for y, (_, _, by, iy) in enumerate(entries):
+            if by == bx + 1:
+                table[x, y] = table[y, x] = inv["strengths"][bx][ix, iy]
+    return [(e, m, b) for e, m, b, _ in entries], table
+
+
+def cluster_table(energies, table, cluster_gap):
+    """Groups the states of an observed (energy per state, strength per pair of states) record
+    into levels (states sorted by energy, new level where the spacing exceeds cluster_gap) and
+    sums the table over the levels.  Returns (levels [(mean energy, multiplicity)], summed
+    table)."""
+    en = numpy.asarray(energies, dtype=float)
+    order = numpy.argsort(en, kind="stable")
+    groups = [[int(order[k]) for k in g] for g in _clusters(en[order], cluster_gap)]
+    tt = numpy.asarray(table, dtype=float)
+    out = numpy.zeros((len(groups), len(groups)), dtype=float)
+    for i, ga in enumerate(groups):
+        for j, gb in enumerate(groups):
+            out[i, j] = tt[numpy.ix_(ga, gb)].sum()
+    return [(float(numpy.mean(en[g])), len(g)) for g in groups], out
+
+
 # ---------------------------------------------------------------------------
 # units (recomputed from scipy.constants; wavenumber in 1/cm is the reference unit)
 # ---------------------------------------------------------------------------
